@@ -263,6 +263,18 @@ pub fn check(case: &Case, p: &mut Probe) -> Check {
     let msg_at = |t: usize, s: &mut u64| -> Vec<u8> {
         if k <= 8 {
             (0..k).map(|b| ((t >> b) & 1) as u8).collect()
+        } else if t < 14 {
+            // low-weight messages (unit vectors, two ones), the zero and the all-ones message: a sparse
+            // message leaves whole stretches of checks without any contribution
+            *s = splitmix(*s);
+            let mut m = vec![u8::from(t == 13); k];
+            if t < 12 {
+                m[(*s % k as u64) as usize] = 1;
+            }
+            if (6..12).contains(&t) {
+                m[((*s >> 20) % k as u64) as usize] = 1;
+            }
+            m
         } else {
             (0..k)
                 .map(|_| {
@@ -484,7 +496,7 @@ pub fn property() -> Property {
         id: "C02",
         subs: vec![Box::new(Sub {
             name: "encoder",
-            rule: "H with 1 <= r <= n <= 16 (thorough 48) built by class: exact staircase tail + random H0; near-staircase (one toggled tail cell anywhere incl. row 0, staircase shifted by one column); [A | P L U] with a random invertible tail; uniform dense; singular tail by construction (duplicated column, zero column, a row equal to the sum of two others); square (k = 0); single row; ones inserted in shuffled order. Oracle: own GF(2) rank of the last r columns decides Ok / Err(SubmatrixNotInvertible), never a panic; in a fifth of the cases the constructor is first handed a matrix with more rows than columns and encode messages of a wrong length (outcomes ignored, panics caught); for Ok all 2^k messages (k <= 8) or 64 pseudo-random ones, handed over in six memory layouts in turn (owned, reversed view, stride 2, stride -2, offset sub-range, owned with negative stride): length n, first k symbols = message, own H c = 0, encode(0) = 0, linearity on consecutive pairs. Non-trivial = (k >= 1, r >= 2, invertible tail) or (singular tail, r >= 2); inner = encoded messages",
+            rule: "H with 1 <= r <= n <= 16 (thorough 48) built by class: exact staircase tail + random H0; near-staircase (one toggled tail cell anywhere incl. row 0, staircase shifted by one column); [A | P L U] with a random invertible tail; uniform dense; singular tail by construction (duplicated column, zero column, a row equal to the sum of two others); square (k = 0); single row; ones inserted in shuffled order. Oracle: own GF(2) rank of the last r columns decides Ok / Err(SubmatrixNotInvertible), never a panic; in a fifth of the cases the constructor is first handed a matrix with more rows than columns and encode messages of a wrong length (outcomes ignored, panics caught); for Ok all 2^k messages (k <= 8) or 64 (twelve of weight one or two, zero, all-ones, 50 pseudo-random ones), handed over in six memory layouts in turn (owned, reversed view, stride 2, stride -2, offset sub-range, owned with negative stride): length n, first k symbols = message, own H c = 0, encode(0) = 0, linearity on consecutive pairs. Non-trivial = (k >= 1, r >= 2, invertible tail) or (singular tail, r >= 2); inner = encoded messages",
             cases: |t| t.pick(300_000, 6_000_000),
             strategy: |t| strategy(t.pick(16, 48)),
             check,
@@ -492,7 +504,7 @@ pub fn property() -> Property {
         }),
         Box::new(Sub {
             name: "encoder-large",
-            rule: "60..=140 rows, 1..=70 message columns (one in four: 2..=24 rows and 200..=1100 message columns with up to 2k + 3r ones in the message part; three in eleven: a number of rows and / or of message columns from {63, 64, 65, 127, 128, 129, 192, 256}, the word-size multiples and their neighbours), sparse message part; tail = exact staircase, a permutation matrix times a unit lower triangular one (invertible, dense path with row exchanges) or a permutation matrix with one column duplicated or removed (singular); 64 pseudo-random messages per accepted matrix; same oracle",
+            rule: "60..=140 rows, 1..=70 message columns (one in four: 2..=24 rows and 200..=1100 message columns with up to 2k + 3r ones in the message part; three in eleven: a number of rows and / or of message columns from {63, 64, 65, 127, 128, 129, 192, 256}, the word-size multiples and their neighbours), sparse message part; tail = exact staircase, a permutation matrix times a unit lower triangular one (invertible, dense path with row exchanges) or a permutation matrix with one column duplicated or removed (singular); 64 messages per accepted matrix (six unit vectors, six of weight at most two, the zero and the all-ones message, 50 pseudo-random ones); same oracle",
             cases: |t| t.pick(1_500, 50_000),
             strategy: large_strategy,
             check,
